@@ -30,27 +30,34 @@ def api_history(ctx, prop="C05"):
     node = t.pick(["node", "a/b"], "node")
     SingleInstancePerFileAttribute.instances.clear()
 
+    # the stored inputs are far apart: with a tolerance the look-ups are those of exact matching
+    tol = 1e-3 if t.flag(0.35, "tolerance") else 0.0
+
     def make():
         if policy == 1:
-            return SimpleCache()
+            return SimpleCache(tolerance=tol)
         if policy in (2, 3):
-            return MemoryFullCache(is_memory_shared=policy == 3)
-        return HDF5Cache(hdf_file_path=path, hdf_node_path=node)
+            return MemoryFullCache(tolerance=tol, is_memory_shared=policy == 3)
+        return HDF5Cache(tolerance=tol, hdf_file_path=path, hdf_node_path=node)
 
     cache = make()
     # entry names on file are decimal indices: files with ten entries or more sort them differently from numbers
     many = policy != 1 and t.flag(0.6 if prop == "C11" else 0.3, "many_keys")
     n_keys = t.randint(10, 14, "n_keys") if many else t.randint(2, 4, "n_keys")
     shift = t.choice(n_keys, "key_shift") if many else 0
-    keys = [(float((k + shift) % n_keys), float(k % 2)) for k in range(n_keys)]
+    keys = [(float((k + shift) % n_keys), float(k % 2), 1) for k in range(n_keys)]
+    if not many and t.flag(0.3, "size_variants"):
+        # the same numbers in arrays of different sizes are different inputs, whatever the tolerance
+        keys = [(2.0, 2.0, 1), (2.0, 2.0, 2), (2.0, 2.0, 3), (0.0, 0.0, 1)][:n_keys]
+        ctx.probe("inputs_differing_by_size_only")
     model = {}  # key -> {"out": value or None, "jac": value or None}; SimpleCache: at most one key
     ops = []
-    sig = f"cache-protocol {pname}" + (" many-entries" if many else "")
+    sig = f"cache-protocol {pname}" + (" many-entries" if many else "") + (" tolerance" if tol else "")
     counter = [0]
     cl = {"C05": ("C05.cache_protocol", "C05.entries", "C05.entries"), "C11": ("C11.cache_reload", "C11.cache_reload", "C11.cache_order")}[prop]
 
     def inp(k):
-        return {"a": array([k[0], 1.0]), "b": array([k[1]])}
+        return {"a": array([k[0], 1.0]), "b": array([k[1]] * k[2])}
 
     def check_all(after):
         for k in keys:
@@ -67,7 +74,7 @@ def api_history(ctx, prop="C05"):
         if n != len(model):
             ctx.violate(cl[1], sig, f"after {after}: {n} entries, {len(model)} inputs were stored; ops={ops}")
         if policy != 1:
-            listed = [(float(e.inputs["a"][0]), float(e.inputs["b"][0])) for e in cache.get_all_entries()]
+            listed = [(float(e.inputs["a"][0]), float(e.inputs["b"][0]), len(e.inputs["b"])) for e in cache.get_all_entries()]
             if listed != list(model):
                 ctx.violate(cl[2], sig + " listing", f"after {after}: get_all_entries lists the inputs {listed}; they were stored in the order {list(model)}; ops={ops}")
             if many and after[0] == "reopen":
